@@ -23,6 +23,7 @@ const (
 	Completed Outcome = iota // every task returned
 	Deadlock                 // no runnable task, no pending event, some task not done
 	StepCap                  // step budget exhausted: never a verdict
+	Livelock                 // no byte, message or task event for Config.NoProgress consecutive scheduling points under a fair scheduler
 )
 
 func (o Outcome) String() string {
@@ -33,6 +34,8 @@ func (o Outcome) String() string {
 		return "deadlock"
 	case StepCap:
 		return "step-cap"
+	case Livelock:
+		return "livelock"
 	}
 	return "?"
 }
@@ -92,6 +95,12 @@ func (h *eventHeap) Pop() any {
 type Config struct {
 	MaxSteps int  // scheduling points before StepCap (0 = default)
 	Trace    bool // keep a readable event trace
+	// NoProgress > 0 ends the run as Livelock when that many consecutive
+	// scheduling points pass without any progress event (bytes moved, channel
+	// transfer, task spawn/exit, accept/dial, timer). The scheduler is weakly
+	// fair (a task cannot continue forever while others are runnable), so
+	// this is a definitive "spins without progress" verdict, not a timeout.
+	NoProgress int
 	// OnCrash is called (kernel context) when a task of party dies by panic.
 	OnCrash func(party string, t *Task)
 }
@@ -106,25 +115,27 @@ type Policy struct {
 
 // World is the state of the current run.
 type World struct {
-	Tape     *Tape
-	cfg      Config
-	pol      Policy
-	tasks    []*Task
-	cur      *Task
-	now      time.Duration
-	events   eventHeap
-	seq      uint64
-	h        hash.Hash
-	steps    int
-	switches int
-	done     chan Outcome
-	outcome  Outcome
-	ended    bool
-	Epoch    uint64
-	reach    map[string]int
-	trace    []string
-	spawnN   map[string]int
-	nextPrio int
+	Tape         *Tape
+	cfg          Config
+	pol          Policy
+	tasks        []*Task
+	cur          *Task
+	now          time.Duration
+	events       eventHeap
+	seq          uint64
+	h            hash.Hash
+	steps        int
+	switches     int
+	done         chan Outcome
+	outcome      Outcome
+	ended        bool
+	Epoch        uint64
+	reach        map[string]int
+	trace        []string
+	spawnN       map[string]int
+	nextPrio     int
+	lastProgress int
+	contRun      int // consecutive "continue" decisions of the running task
 }
 
 // W is the world of the run in progress (nil outside Run).
@@ -273,6 +284,7 @@ func (w *World) newTask(site, party string, fn func()) *Task {
 	// PCT priorities: drawn at spawn, high = runs first.
 	t.prio = 1000 + int(w.Tape.Choose(SSched, 1000))
 	w.tasks = append(w.tasks, t)
+	w.lastProgress = w.steps
 	w.logRec('S', uint64(t.idx), 0)
 	if w.cfg.Trace {
 		w.tracef("spawn %s", t.ID)
@@ -306,6 +318,7 @@ func (w *World) newTask(site, party string, fn func()) *Task {
 				}
 			}
 			t.state = tDone
+			w.lastProgress = w.steps
 			w.logRec('X', uint64(t.idx), 0)
 			w.dispatch(nil)
 		}()
@@ -404,6 +417,10 @@ func (w *World) dispatch(self *Task) {
 			w.finish(StepCap, self)
 			return
 		}
+		if w.cfg.NoProgress > 0 && w.steps-w.lastProgress > w.cfg.NoProgress {
+			w.finish(Livelock, self)
+			return
+		}
 		next := w.pick(self)
 		if next != nil {
 			if next == self {
@@ -425,6 +442,7 @@ func (w *World) dispatch(self *Task) {
 			if ev.at > w.now {
 				w.now = ev.at
 			}
+			w.lastProgress = w.steps
 			w.logRec('T', uint64(ev.at), ev.seq)
 			ev.fn()
 			continue
@@ -484,6 +502,17 @@ func (w *World) pick(self *Task) *Task {
 	idx := int(w.Tape.Raw(SSched, func(r *splitmix) uint32 {
 		return uint32(w.policyPick(r, cands, continuing))
 	}) % uint32(len(cands)))
+	// weak fairness, independent of the tape: a task may not continue
+	// forever while others are runnable.
+	if continuing && idx == 0 {
+		w.contRun++
+		if w.contRun > 20000 {
+			idx = 1
+			w.contRun = 0
+		}
+	} else {
+		w.contRun = 0
+	}
 	c := cands[idx]
 	w.logRec('C', uint64(c.idx), uint64(len(cands)))
 	if w.cfg.Trace && c != self {
@@ -590,6 +619,13 @@ func Biased(stream string, n int, num, den uint64) int {
 		return 0
 	}
 	return W.Tape.Biased(stream, n, num, den)
+}
+
+// Progress records a progress event (see Config.NoProgress).
+func Progress() {
+	if W != nil {
+		W.lastProgress = W.steps
+	}
 }
 
 // Reach counts a "this happened" probe.
